@@ -52,6 +52,8 @@ var (
 	SiteWHeader    = RegSite("writer.WriteHeader")
 	SiteWWrite     = RegSite("writer.Write")
 	SiteWFlush     = RegSite("writer.Flush")
+	SiteWHijack    = RegSite("writer.Hijack")
+	SiteConnWrite  = RegSite("conn.Write")
 	SiteBRead      = RegSite("body.Read")
 	SiteBClose     = RegSite("body.Close")
 	SiteAcquire    = RegSite("provider.Acquire")
